@@ -15,7 +15,7 @@ class C05(Property):
         cases = []
         k = 0
         while len(cases) < n:
-            if rng.random() < 0.04:
+            if rng.random() < 0.2:
                 # words split at `--` between a non_strict positional under many/optional/fallback and strict().many():
                 # every word of the line must arrive somewhere (none silently dropped)
                 from .C09 import C09
